@@ -69,6 +69,13 @@ def make_config(rng, nt, ns, cache_mode, twins, repeats):
         wsp = [3.0] * ns
         us = [0.35] * ns
         mol = [-120.0] * ns
+    elif ns >= 2 and rng.random() < 0.2:
+        # a slowly drifting series: consecutive records differ by a few tenths of a degree / a few thousandths, the other fields are constant
+        d0, u0 = float(rng.uniform(0, 359)), float(rng.uniform(0.3, 0.5))
+        wdir = [d0 + 0.3 * k for k in range(ns)]
+        wsp = [3.0] * ns
+        us = [u0 * (1 + 4e-4 * k) for k in range(ns)]
+        mol = [-120.0] * ns
     else:
         wdir = [float(rng.uniform(0, 360)) for _ in range(ns)]
         wsp = [float(rng.uniform(2, 6)) for _ in range(ns)]
